@@ -88,6 +88,7 @@ fn main() {
                 "grow" => seq::Profile::Grow,
                 "slicecross" => seq::Profile::SliceCross,
                 "topblocks" => seq::Profile::TopBlocks,
+                "refblocks" => seq::Profile::Refblocks,
                 _ => seq::Profile::General,
             };
             let nops: usize = m.get("ops").and_then(|s| s.parse().ok()).unwrap_or(40);
